@@ -12,6 +12,7 @@ import (
 	"fmt"
 	"os"
 	"testing"
+	"time"
 
 	"verifharness/hx"
 	"verifharness/psx"
@@ -28,10 +29,12 @@ func handle(run *hx.Run, model *hx.Model, name string, r *psx.Runner) {
 	// shrink: drop lines of the recorded script as long as some finding remains
 	// (the failing script is replayable as it stands; shrinking re-runs it on fresh stores)
 	script, what := r.Script, r.FailWhat
+	psx.GateTimeout = 500 * time.Millisecond
 	small := hx.Shrink(script, 1, func(s []string) bool {
 		rr := psx.Replay(hx.NewRun("C02"), model, name+"/shrink", s)
 		return rr != nil && rr.FailWhat == what
 	})
+	psx.GateTimeout = 10 * time.Second
 	if len(small) < len(script) {
 		psx.Replay(run, model, name+"/shrunk", small)
 	}
